@@ -207,6 +207,10 @@ func explainMismatch(p *SessPlan, d int, pos int64, got []byte, opt *XferOpt) *M
 func runTransfer(e *Env, cm *protocol.Mux, plans []*SessPlan, opt XferOpt) ([]*SessResult, bool) {
 	if opt.Watchdog == 0 {
 		opt.Watchdog = 900 * time.Second
+		if !isVirtual {
+			// real seconds: a transfer takes milliseconds; firing is inconclusive
+			opt.Watchdog = 120 * time.Second
+		}
 	}
 	if v := os.Getenv("VERIF_WATCHDOG_S"); v != "" {
 		if n, err := strconv.Atoi(v); err == nil {
